@@ -3,7 +3,7 @@
    mp_* = movingpeaks.py, tl_* = tools.py) and proved from Proofs/C20_GenEq.v (generated = published
    formula, for every input) and Proofs/C20_Spec.v (facts about the published formulas).
    Over the reals: floating-point rounding is outside these theorems (see design_notes/C20.md). *)
-From Coq Require Import Reals ZArith List Bool Lia.
+From Coq Require Import Reals ZArith List Bool Lia Lra.
 From DV Require Import Base.PyList Base.C20_Num Model.C20_BenchSpec Proofs.C20_Reals Proofs.C20_Spec Proofs.C20_GenEq
   Gen.C20_bench_gen.
 Import ListNotations.
@@ -302,6 +302,13 @@ Theorem C20_rotate_feeds : forall (M Minv : list (list R)) n (x y : list R),
   length y = n -> matvec M y = x -> tl_rotate_arg Minv x = y.
 Proof. intros M Minv n x y. rewrite ge_rotate_arg. apply rotate_feeds. Qed.
 
+(* the same with the contract stated as a matrix equation: Minv . M = I (n x n, list-of-rows matrices) *)
+Theorem C20_rotate_feeds_matrix : forall (M Minv : list (list R)) (x y : list R),
+  Forall (fun row => length row = length y) M ->
+  matmul Minv M (length y) = identity (length y) ->
+  matvec M y = x -> tl_rotate_arg Minv x = y.
+Proof. intros M Minv x y. rewrite ge_rotate_arg. apply rotate_feeds_matrix. Qed.
+
 Theorem C20_noise_feeds : forall (fs : list (option R)) (x r : list R),
   tl_noise_arg fs x = x /\
   forall i, (i < length r)%nat -> (i < length fs)%nat ->
@@ -328,8 +335,8 @@ Qed.
 
 (* section 4 -- conjunction of the theorems above; carries the Print Assumptions of this group
    (one call per group: each call costs about 1.7 s) *)
-Theorem C20_sec4_decorators : ltac:(let t := type of (conj C20_translate_feeds (conj C20_translate_inverse (conj C20_scale_feeds (conj C20_scale_inverse (conj C20_rotate_feeds (conj C20_noise_feeds (conj C20_bin2float_feeds C20_bin2float_length))))))) in exact t).
-Proof. exact (conj C20_translate_feeds (conj C20_translate_inverse (conj C20_scale_feeds (conj C20_scale_inverse (conj C20_rotate_feeds (conj C20_noise_feeds (conj C20_bin2float_feeds C20_bin2float_length))))))). Qed.
+Theorem C20_sec4_decorators : ltac:(let t := type of (conj C20_translate_feeds (conj C20_translate_inverse (conj C20_scale_feeds (conj C20_scale_inverse (conj C20_rotate_feeds (conj C20_rotate_feeds_matrix (conj C20_noise_feeds (conj C20_bin2float_feeds C20_bin2float_length)))))))) in exact t).
+Proof. exact (conj C20_translate_feeds (conj C20_translate_inverse (conj C20_scale_feeds (conj C20_scale_inverse (conj C20_rotate_feeds (conj C20_rotate_feeds_matrix (conj C20_noise_feeds (conj C20_bin2float_feeds C20_bin2float_length)))))))). Qed.
 Print Assumptions C20_sec4_decorators.
 
 (* ================================================================================================ *)
@@ -376,4 +383,13 @@ Proof.
   - repeat constructor; (left; reflexivity) || (right; reflexivity).
   - apply C20_mp_count_in_limits. lia.
   - apply C20_mp_count_in_limits. lia.
+Qed.
+
+Example C20_rotate_contract_nonvacuous :
+  matmul [[1 / 2; 0]; [0; 1 / 4]] [[2; 0]; [0; 4]] 2 = identity 2 /\
+  Forall (fun row : list R => length row = 2%nat) [[2; 0]; [0; 4]].
+Proof.
+  split; [|repeat constructor].
+  unfold matmul, identity. cbn [map seq lincomb vadd vscale map2 repeat Nat.eqb].
+  repeat (apply (f_equal2 cons)); try reflexivity; try lra.
 Qed.
